@@ -383,11 +383,22 @@ class _resolve_called_lambdas(ast.NodeTransformer):
             return self.generic_visit(node)
         return node
 
+    def visit_Lambda(self, node: ast.Lambda) -> Any:
+        "The parameters of a lambda that is not called hide outer arguments of the same name"
+        l_args = node.args
+        all_args = l_args.posonlyargs + l_args.args + l_args.kwonlyargs
+        all_args += [a for a in (l_args.vararg, l_args.kwarg) if a is not None]
+        self._arg_map_list.append({a.arg: None for a in all_args})
+        result = self.generic_visit(node)
+        self._arg_map_list.pop()
+        return result
+
     def visit_Name(self, node: ast.Name) -> Any:
         "Look through the arg map to see if it is a argument"
         for arg_map in reversed(self._arg_map_list):
             if node.id in arg_map:
-                return arg_map[node.id]
+                replacement = arg_map[node.id]
+                return replacement if replacement is not None else node
         return node
 
 
